@@ -222,6 +222,9 @@ class Contexts:
         if q < 0.5:
             nm = self.bound('p')
             arg = b.T([r.choice(scope)]) if r.random() < 0.7 else b.expr(kind='name', name=r.choice(scope))
+            if r.random() < 0.3:        # a lambda called inside a lambda: (lambda p: (lambda q: BODY(p, q, x))(ARG2))(ARG)
+                inner = b.expr(kind='lam', name='q', args=[self.simple(b, scope + [nm, 'q'] * 2), b.expr(kind='name', name=nm)])
+                return b.expr(kind='lam', name=nm, args=[inner, arg])
             return b.expr(kind='lam', name=nm, args=[self.simple(b, scope + [nm] * 2), arg])
         nm = self.bound('c')
         it = b.I([r.choice(scope) for _ in range(r.randint(0, 1))])
